@@ -1,10 +1,249 @@
 import Driver.Common
-/-! C04 driver (stub: answers bad-op until the property's model is wired in). -/
-open Driver
+import Sourmash.Model.SetOps
+import Sourmash.Spec.SetOps
+/-! C04 driver.  `<model>` column: `downsampleScaled` / `downsampleMaxHash` / `countCommon` /
+`similarity` / `selectScaled` of `Model/SetOps.lean`.  `<spec>` column: a register stands for the
+multiset of (hash, abundance) insertions it received; downsampling to `s'` only replaces the ceiling
+by `maxHashForScaled s'`, so the expected content is that multiset *filtered by the new ceiling*
+(= the sketch of the same data made directly at `s'`), and every comparison with `downsample = true`
+is expected to equal the plain set computation on the two filtered contents. -/
+open Driver SetOps SetSpec
 
-def stepC04 (s : Unit) (ws : List String) : Unit × Resp :=
+/-- spec-side register: parameters and the multiset of (hash, abundance) insertions it stands for -/
+structure SReg where
+  num : Nat
+  maxHash : Nat
+  ksize : Nat
+  seed : Nat
+  mol : String
+  track : Bool
+  src : List (Nat × Nat)
+
+def SReg.content (r : SReg) : List (Nat × Nat) := sketchPairs r.num r.maxHash r.src
+def SReg.keys (r : SReg) : List Nat := r.content.map Prod.fst
+
+structure St where
+  kind : Kind := .vec
+  nospec : Bool := false
+  regs : List (Nat × Sk) := []
+  sregs : List (Nat × SReg) := []
+
+def getR {α : Type} (l : List (Nat × α)) (i : Nat) : Option α := (l.find? (·.1 == i)).map (·.2)
+def setR {α : Type} (l : List (Nat × α)) (i : Nat) (v : α) : List (Nat × α) :=
+  (i, v) :: l.filter (·.1 != i)
+
+def parseMol (s : String) : Mol :=
+  if s == "protein" then .protein else if s == "dayhoff" then .dayhoff else if s == "hp" then .hp else .dna
+
+def parsePairs (s : String) : List (Nat × Nat) :=
+  if s == "-" || s == "" then [] else
+  (s.splitOn ",").filterMap (fun w => match w.splitOn ":" with
+    | [h, a] => some (h.toNat!, a.toNat!)
+    | [h] => some (h.toNat!, 1)
+    | _ => none)
+
+def showErr : Err → String
+  | .MismatchKSizes => "err MismatchKSizes"
+  | .MismatchDNAProt => "err MismatchDNAProt"
+  | .MismatchScaled => "err MismatchScaled"
+  | .MismatchSeed => "err MismatchSeed"
+  | .NeedsAbundanceTracking => "err NeedsAbundanceTracking"
+  | .CannotUpsampleScaled => "err CannotUpsampleScaled"
+
+def showObs (mh : Nat) (mins : List Nat) (ab : Option (List Nat)) : String :=
+  "mh=" ++ toString mh ++ " mins=" ++ showNats mins ++ " abunds=" ++ (match ab with | some l => showNats l | none => "none")
+
+def SetOps.Sk.obs (s : Sk) : String := showObs s.maxHash s.mins s.abunds
+def SReg.obs (r : SReg) : String :=
+  let c := r.content
+  showObs r.maxHash (c.map Prod.fst) (if r.track then some (c.map Prod.snd) else none)
+
+/-- the property's reading of `check_compatible` -/
+def specCompat (a b : SReg) : Option String :=
+  if a.ksize != b.ksize then some "err MismatchKSizes"
+  else if a.mol != b.mol then some "err MismatchDNAProt"
+  else if a.maxHash != b.maxHash then some "err MismatchScaled"
+  else if a.seed != b.seed then some "err MismatchSeed"
+  else none
+
+def lookP (ps : List (Nat × Nat)) (h : Nat) : Nat :=
+  match ps.find? (·.1 == h) with | some p => p.2 | none => 0
+
+def resp (st : St) (m s : String) : Resp := { model := m, spec := if st.nospec then "-" else s }
+
+
+def SReg.scaled (r : SReg) : Nat := Scaled.scaledForMaxHash r.maxHash
+
+/-- the property's reading of `downsample_scaled` -/
+def specDs (r : SReg) (s : Nat) : Except String SReg :=
+  if r.maxHash == 0 then .ok r                      -- num sketches pass through unchanged
+  else if r.scaled == s then .ok r
+  else if r.scaled > s then .error "err CannotUpsampleScaled"
+  else .ok { r with maxHash := Scaled.maxHashForScaled s }
+
+def showF (f : Float) : String :=
+  let n := f.toBits.toNat
+  String.ofList ((List.range 16).reverse.map (fun i => hexDigit ((n / 16 ^ i) % 16)))
+
+/-- both operands brought to the larger scaled (what `downsample = true` promises) -/
+def specBoth (sa sb : SReg) : Except String (SReg × SReg) :=
+  let m := max sa.scaled sb.scaled
+  match specDs sa m, specDs sb m with
+  | .ok a, .ok b => .ok (a, b)
+  | .error e, _ => .error e
+  | _, .error e => .error e
+
+def specCount (a b : SReg) : String :=
+  match specCompat a b with
+  | some e => e
+  | none => "common=" ++ toString (inter a.keys b.keys).length
+
+def specIsz (a b : SReg) : String :=
+  match specCompat a b with
+  | some e => e
+  | none => "common=" ++ toString (inter a.keys b.keys).length ++ " union=" ++ toString (unionSize a.keys b.keys)
+
+def specSim (a b : SReg) (ig : Bool) : String :=
+  match specCompat a b with
+  | some e => e
+  | none =>
+    if ig || !a.track || !b.track then
+      showF (SimParts.jaccard (inter a.keys b.keys).length (unionSize a.keys b.keys)).toFloat
+    else
+      let ca := a.content
+      let cb := b.content
+      let sq := fun (c : List (Nat × Nat)) => (c.map (fun p => p.2 * p.2)).foldl (· + ·) 0
+      let dot := ((inter a.keys b.keys).map (fun h => lookP ca h * lookP cb h)).foldl (· + ·) 0
+      showF (SimParts.angular dot (sq ca) (sq cb)).toFloat
+
+def showSim (r : Except Err SimParts) : String :=
+  match r with
+  | .ok p => showF p.toFloat
+  | .error e => showErr e
+
+def explicitBoth (k : Kind) (a b : Sk) : Except Err (Sk × Sk) := do
+  let m := max a.scaled b.scaled
+  let a2 ← downsampleScaled k a m
+  let b2 ← downsampleScaled k b m
+  pure (a2, b2)
+
+def binop (st : St) (op : String) (r1 r2 : Nat) (args : List String) : St × Resp :=
+  match getR st.regs r1, getR st.regs r2, getR st.sregs r1, getR st.sregs r2 with
+  | some a, some b, some sa, some sb =>
+    if op == "merge" then
+      let (st', m) := match a.merge st.kind b with
+        | .ok a' => ({ st with regs := setR st.regs r1 a' }, a'.obs)
+        | .error e => (st, showErr e)
+      match specCompat sa sb with
+      | some e => (st', resp st m e)
+      | none =>
+        let sa' := { sa with src := sa.src ++ sb.src, track := sa.track && sb.track }
+        ({ st' with sregs := setR st'.sregs r1 sa' }, resp st m sa'.obs)
+    else if op == "isect" then
+      let m := match intersection st.kind a b with
+        | .ok (c, u) => "common=" ++ showNats c ++ " union=" ++ toString u
+        | .error e => showErr e
+      let s := match specCompat sa sb with
+        | some e => e
+        | none => "common=" ++ showNats (inter sa.keys sb.keys) ++ " union=" ++ toString (unionSize sa.keys sb.keys)
+      (st, resp st m s)
+    else if op == "cc" then
+      let d := args == ["1"]
+      let m := match countCommon st.kind a b d with
+        | .ok c => "common=" ++ toString c
+        | .error e => showErr e
+      let s := if d then (match specBoth sa sb with | .ok (x, y) => specCount x y | .error e => e) else specCount sa sb
+      (st, resp st m s)
+    else if op == "sim" then
+      let ig := args.head? == some "1"
+      let d := args.drop 1 == ["1"]
+      let m := showSim (similarity st.kind a b ig d)
+      let s := if d then (match specBoth sa sb with | .ok (x, y) => specSim x y ig | .error e => e) else specSim sa sb ig
+      (st, resp st m s)
+    else if op == "ccx" then
+      let m := match explicitBoth st.kind a b with
+        | .ok (x, y) => (match countCommon st.kind x y false with | .ok c => "common=" ++ toString c | .error e => showErr e)
+        | .error e => showErr e
+      (st, resp st m (match specBoth sa sb with | .ok (x, y) => specCount x y | .error e => e))
+    else if op == "iszx" then
+      let m := match explicitBoth st.kind a b with
+        | .ok (x, y) => (match intersectionSize st.kind x y with
+            | .ok (c, u) => "common=" ++ toString c ++ " union=" ++ toString u | .error e => showErr e)
+        | .error e => showErr e
+      (st, resp st m (match specBoth sa sb with | .ok (x, y) => specIsz x y | .error e => e))
+    else if op == "simx" then
+      let ig := args == ["1"]
+      let m := match explicitBoth st.kind a b with
+        | .ok (x, y) => showSim (similarity st.kind x y ig false)
+        | .error e => showErr e
+      (st, resp st m (match specBoth sa sb with | .ok (x, y) => specSim x y ig | .error e => e))
+    else (st, { model := "bad-op" })
+  | _, _, _, _ => (st, { model := "bad-reg" })
+
+def stepC04 (st : St) (ws : List String) : St × Resp :=
   match ws with
-  | "case" :: _ => (s, { model := "ok" })
-  | _ => (s, { model := "bad-op" })
+  | "case" :: _ :: ty :: rest =>
+    ({ kind := if ty == "tree" then .tree else .vec, nospec := rest.contains "nospec" }, { model := "ok" })
+  | ["new", r, scaled, num, ksize, mol, seed, track] =>
+    let r := r.toNat!
+    let tr := track == "1"
+    let sk := Sk.new scaled.toNat! ksize.toNat! (parseMol mol) seed.toNat! tr num.toNat!
+    let sr : SReg := { num := num.toNat!, maxHash := Scaled.maxHashForScaled scaled.toNat!, ksize := ksize.toNat!,
+                       seed := seed.toNat!, mol := mol, track := tr, src := [] }
+    ({ st with regs := setR st.regs r sk, sregs := setR st.sregs r sr }, { model := "ok" })
+  | ["copy", r1, r2] =>
+    match getR st.regs r2.toNat!, getR st.sregs r2.toNat! with
+    | some a, some sa => ({ st with regs := setR st.regs r1.toNat! a, sregs := setR st.sregs r1.toNat! sa }, { model := "ok" })
+    | _, _ => (st, { model := "bad-reg" })
+  | ["obs", r] =>
+    match getR st.regs r.toNat!, getR st.sregs r.toNat! with
+    | some a, some sa => (st, resp st a.obs sa.obs)
+    | _, _ => (st, { model := "bad-reg" })
+  | ["scaled", r] =>
+    match getR st.regs r.toNat! with
+    | some a => (st, { model := "scaled=" ++ toString a.scaled })
+    | _ => (st, { model := "bad-reg" })
+  | ["add", r, items] =>
+    let r := r.toNat!
+    match getR st.regs r, getR st.sregs r with
+    | some a, some sa =>
+      let ps := parsePairs items
+      let a' := a.addManyAb st.kind ps
+      let sa' := { sa with src := sa.src ++ ps }
+      ({ st with regs := setR st.regs r a', sregs := setR st.sregs r sa' }, resp st a'.obs sa'.obs)
+    | _, _ => (st, { model := "bad-reg" })
+  | "sel" :: s :: rs =>
+    let s := s.toNat!
+    let ids := rs.map String.toNat!
+    let sks := ids.filterMap (getR st.regs)
+    let srs := ids.filterMap (getR st.sregs)
+    if sks.length != ids.length then (st, { model := "bad-reg" }) else
+    let m := match selectScaled st.kind sks s with
+      | .ok l => " | ".intercalate (("n=" ++ toString l.length) :: l.map Sk.obs)
+      | .error e => showErr e
+    let kept := srs.filter (fun r => r.scaled != 0 && r.scaled ≤ s)
+    let outs := kept.map (fun r => specDs r s)
+    let sp := match outs.find? (fun o => match o with | .error _ => true | .ok _ => false) with
+      | some (.error e) => e
+      | _ => " | ".intercalate (("n=" ++ toString kept.length) :: outs.map (fun o => match o with | .ok r => r.obs | .error e => e))
+    (st, resp st m sp)
+  | [op, r1, r2, x] =>
+    if op == "ds" || op == "dsm" then
+      match getR st.regs r2.toNat!, getR st.sregs r2.toNat! with
+      | some b, some sb =>
+        let res := if op == "ds" then downsampleScaled st.kind b x.toNat! else downsampleMaxHash st.kind b x.toNat!
+        let sres := if op == "ds" then specDs sb x.toNat!
+                    else if sb.maxHash == 0 then .ok sb else specDs sb (Scaled.scaledForMaxHash x.toNat!)
+        let (st1, m) := match res with
+          | .ok b' => ({ st with regs := setR st.regs r1.toNat! b' }, b'.obs)
+          | .error e => (st, showErr e)
+        match sres with
+        | .ok sb' => ({ st1 with sregs := setR st1.sregs r1.toNat! sb' }, resp st m sb'.obs)
+        | .error e => (st1, resp st m e)
+      | _, _ => (st, { model := "bad-reg" })
+    else binop st op r1.toNat! r2.toNat! [x]
+  | [op, r1, r2] => binop st op r1.toNat! r2.toNat! []
+  | [op, r1, r2, x, y] => binop st op r1.toNat! r2.toNat! [x, y]
+  | _ => (st, { model := "bad-op" })
 
-def main : IO Unit := Driver.run () stepC04
+def main : IO Unit := Driver.run ({} : St) stepC04
